@@ -236,6 +236,7 @@ class SymEval:
         self._stmt = None
         self.selfname = selfname if selfname is not None else (func.params[0] if func.cls and not func.is_static and func.params else None)
         self.unsupported: list[ast.AST] = []
+        self.undef_reads: list[ast.AST] = []  # Name loads of locals that are unbound on the evaluated path
         self.format_tables: list = []  # (table length, index term, sep, spec) for T[i] normalised to f'{sep}{i:spec}'
         self.loop_info: dict = {}
         self.final: State | None = None
@@ -673,6 +674,23 @@ class SymEval:
             return bool(c[1].v)
         return None
 
+    def _locals_of(self, fi):
+        cached = getattr(fi.node, "_sa_locals", None)
+        if cached is not None:
+            return cached
+        cache, k = {}, 0
+        if True:
+            names = set()
+            for n in _walk_no_nested_funcs(fi.node):
+                if isinstance(n, ast.Name) and isinstance(n.ctx, (ast.Store, ast.Del)):
+                    names.add(n.id)
+                elif isinstance(n, ast.ExceptHandler) and n.name:
+                    names.add(n.name)
+            glob = {x for n in _walk_no_nested_funcs(fi.node) if isinstance(n, (ast.Global, ast.Nonlocal)) for x in n.names}
+            cache[k] = names - glob
+            fi.node._sa_locals = cache[k]
+        return cache[k]
+
     def concrete_seq(self, t):
         if is_const(t) and isinstance(t[1], (range, tuple, bytes, str)):
             return list(t[1])
@@ -705,6 +723,10 @@ class SymEval:
                 return self.lift(self.modenv[e.id]) if not isinstance(self.modenv[e.id], Unknown) else ("extern", e.id)
             if e.id in ("True", "False", "None"):
                 return const({"True": True, "False": False, "None": None}[e.id])
+            if e.id in self._locals_of(self.func):
+                # a local of this function that no statement on the path so far has bound: UnboundLocalError at run time
+                self.undef_reads.append(e)
+                return ("undef", e.id)
             return ("builtin", e.id)
         if isinstance(e, ast.Attribute):
             base = self.expr(e.value, st)
@@ -1297,3 +1319,13 @@ def _format_table(seq):
         if x != sep + format(i, spec):
             return None
     return sep, spec
+
+
+def _walk_no_nested_funcs(fn):
+    todo = list(ast.iter_child_nodes(fn))
+    while todo:
+        n = todo.pop()
+        yield n
+        if isinstance(n, (ast.FunctionDef, ast.AsyncFunctionDef, ast.Lambda, ast.ClassDef)):
+            continue
+        todo.extend(ast.iter_child_nodes(n))
